@@ -330,8 +330,21 @@ def run(cx, rep):
                     for bnd in walk(fl["pat"]):
                         if bnd["k"] == "P.Binding":
                             fld[bnd.get("lid")] = fl["name"]
+        # an argument may be a local bound once by an immutable `let` with an initialiser (benign b97: the extended
+        # accumulators `and(*atom, neg.clone())` / `and(*atom, pos.clone())` and the three sub-results are named before
+        # they are used): such a local is read as its initialiser.  `let mut` and `let x;` locals stay opaque ("?").
+        lets = {x["pat"].get("lid"): x["init"] for x in walk(tree["body"])
+                if x["k"] == "LetStmt" and x["pat"]["k"] == "P.Binding" and x.get("init") is not None and x.get("els") is None
+                and x["pat"].get("mode") == "BindingMode(No, Not)"}
+        def walk_lets(e, _open=()):
+            for x in walk(e):
+                if x["k"] == "Path" and x.get("res") == "local" and x.get("lid") in lets and x.get("lid") not in _open:
+                    for y in walk_lets(lets[x["lid"]], _open + (x["lid"],)):
+                        yield y
+                else:
+                    yield x
         def lids(e):
-            return [x.get("lid") for x in walk(e) if x["k"] == "Path" and x.get("res") == "local"]
+            return [x.get("lid") for x in walk_lets(e) if x["k"] == "Path" and x.get("res") == "local"]
         # the recursive calls, as plain calls or as method calls on the walk's own context struct (arguments are
         # taken in parameter order either way)
         def full_args(n):
@@ -344,8 +357,7 @@ def run(cx, rep):
             which = ([fld[l] for a_ in c["args"] for l in lids(a_) if fld.get(l) in ("left", "middle", "right")] or ["?"])[0]
             def ext(a, base):
                 ls = lids(a)
-                calls = [x for x in walk(a) if x["k"] == "Call" and x is not a or x["k"] == "Call"]
-                inner = [x for x in walk(a) if x["k"] == "Call"]
+                inner = [x for x in walk_lets(a) if x["k"] == "Call"]
                 if not inner:
                     return "same" if ls == [base] else "?"
                 # extended: a constructor call that takes the accumulator and the node's atom
